@@ -472,6 +472,7 @@ class Obligation:
     def make_interp(self):
         I = Interp(self.interpret_modules, sym_containers=self.sym_containers,
                    loop_bound=self.loop_bound)
+        I.nondet_sets = getattr(self, 'nondet_sets', False)
         self.default_stubs(I)
         return I
 
